@@ -3,6 +3,7 @@ from engine import *
 import obligations
 import provenance
 import guards
+import arith
 import writes
 import mutations
 import accessors
@@ -421,3 +422,4 @@ def r06H(F):
 	import C11
 	return C11.r11H(F, '06.H')
 RULES.append(('06.H', 'claims and contentious outpoints of a revoked commitment are stamped with the confirming block, not the tip (11.H under C06)', r06H))
+RULES.append(('06.N', 'arithmetic census: per reviewed function the number of operations per (group: add/sub, mul, div, rem, shift, bit, min, max, div_ceil ...; flavour: plain / checked / saturating / wrapping) is unchanged - a dropped or added `+ 1`, a rounding direction, saturating for checked, min for max (rules/arith.py; value arithmetic itself is not decided)', lambda F: arith.for_property(F, 'C06', '06.N')))
